@@ -94,7 +94,7 @@ def run(ctx):
     tg = targeted(ctx)
     items += tg
     ctx.count('source', 'explicit_target', len(tg))
-    rd = randoms(ctx, 1500 if ctx.tier == 'quick' else 20000)
+    rd = randoms(ctx, 800 if ctx.tier == 'quick' else 20000)
     items += rd
     ctx.count('source', 'random_history', len(rd))
     ctx.exhaustive = True
